@@ -135,3 +135,33 @@ def install(native=False):
     import time as _time
     STUBS.append("modelx.core.system._trace_time -> constant (CrossHair models time.* as nondeterministic)")
     return STUBS
+
+
+_FORMULA_MEMO = {}
+
+
+def memo_formulas():
+    """Optional stub for harnesses whose subject is NOT formula capture (everything except C04/C20): constructing a
+    Formula from the same (text, name) again copies the first result instead of re-running ast/asttokens/compile.
+    Formula construction is a pure function of its arguments; the compiled function object is only used as a code
+    template (BoundFunction re-creates functions over the live namespace)."""
+    import modelx.core.formula as mf
+    if getattr(mf.Formula.__init__, "__verif_memo__", False):
+        return
+    orig = mf.Formula.__init__
+
+    def init(self, func, name=None, module=None):
+        if isinstance(func, str):
+            key = (func, name, module)
+            hit = _FORMULA_MEMO.get(key)
+            if hit is None:
+                orig(self, func, name, module)
+                _FORMULA_MEMO[key] = self
+            else:
+                for a in ("func", "signature", "source", "module", "_is_lambda"):
+                    setattr(self, a, getattr(hit, a))
+        else:
+            orig(self, func, name, module)
+    init.__verif_memo__ = True
+    mf.Formula.__init__ = init
+    STUBS.append("Formula(text, name) memoised per process for harness-generated model text (not in C04/C20)")
